@@ -667,6 +667,46 @@ def canon(o):
     return json.dumps(o, sort_keys=True)
 
 
+def unicode_source_oracle(ck, tmp):
+    from semantiva.configurations.schema import RunBlock, RunSource, RunSpaceV1Config
+    from semantiva.execution.run_space import expand_run_space
+    import yaml
+    words = ["na\u00efve", "a\u2028b", "c\u2029d", "e\u0085f", "tab\there", "\u00fcber \u20ac", "plain"]
+    d = os.path.join(tmp, "unicode")
+    os.makedirs(d, exist_ok=True)
+    n = 0
+    for fmt in ("ndjson", "json", "yaml", "csv"):
+        vals = [w for w in words if not (fmt == "csv" and any(ch in w for ch in "\u2028\u2029\u0085\t"))] if fmt == "csv" else list(words)
+        rows = [{"label": w, "idx": i} for i, w in enumerate(vals)]
+        path = os.path.join(d, "src." + fmt)
+        if fmt == "ndjson":
+            text = "\n".join(json.dumps(r, ensure_ascii=False) for r in rows) + "\n"
+        elif fmt == "json":
+            text = json.dumps(rows, ensure_ascii=False)
+        elif fmt == "yaml":
+            text = yaml.safe_dump(rows, allow_unicode=True, sort_keys=False)
+        else:
+            text = "label,idx\r\n" + "".join("%s,%d\r\n" % (r["label"], r["idx"]) for r in rows)
+        with open(path, "w", encoding="utf-8", newline="") as f:
+            f.write(text)
+        try:
+            runs, meta = expand_run_space(RunSpaceV1Config(blocks=[RunBlock(mode="by_position", context={}, source=RunSource(format=fmt, path="src." + fmt))]), cwd=d)
+            got = [(r.get("label"), r.get("idx")) for r in runs]
+        except Exception as ex:  # noqa
+            got = "raises %s: %s" % (type(ex).__name__, str(ex)[:120])
+        n += 1
+        want = [(r["label"], r["idx"]) for r in rows]
+        if fmt == "yaml":      # what the TEXT declares under YAML's own rules (a raw NEL inside a plain scalar is a folded line break)
+            want = [(r["label"], r["idx"]) for r in yaml.safe_load(text)]
+        if got != want:
+            ck.fail_input("C08:source-loading:non-ascii-strings:" + fmt,
+                          "a %s source whose rows hold the strings %s: expansion gives %s, the file declares %d rows %s"
+                          % (fmt, [w.encode("unicode_escape").decode() for w in vals], got if isinstance(got, str) else [(str(a).encode("unicode_escape").decode(), b) for a, b in got][:8],
+                             len(want), [(a.encode("unicode_escape").decode(), b) for a, b in want][:8]),
+                          {"kind": "unicode-source", "format": fmt, "text": text})
+    return n
+
+
 LOADER_HEADER = """From Coq Require Import List String ZArith Bool.
 From SV Require Import Model.RunSpace Model.Loader Gen.LoaderGen.
 Import ListNotations. Open Scope string_scope.
@@ -943,6 +983,11 @@ def _run(ck, rng, thorough, facts, tmp):
     ck.cov["traces_validated_against_impl"] = agreed
     ck.log("correspondence: %d/%d agree; outcomes %s" % (agreed, len(usable), json.dumps(dist, sort_keys=True)))
 
+    # ---------- (8) source files holding strings outside ASCII (direct oracle: the model's strings are printable ASCII):
+    #            accented letters, the Unicode line / paragraph separators and NEL (legal raw inside JSON strings), a tab
+    n_uni = unicode_source_oracle(ck, tmp)
+    ck.cov["evaluations"] += n_uni
+
     # ---------- (7) the loader model against the loader
     loader_correspondence(ck, rng, [sp for sp in specs if isinstance(sp, dict) and "blocks" in sp], 900 if thorough else 300)
 
@@ -998,6 +1043,15 @@ def replay(obj):
             print("giant:", g["name"], "| total %s runs, max_runs=%d" % (fmt_total(giant_total(g)), g["max_runs"]))
             print("outcome under RLIMIT_AS=%d MiB, %d s:" % (GIANT_AS >> 20, GIANT_SECONDS), o, "| acceptable: maxruns")
             return 0 if o["outcome"] == "maxruns" else 1
+        if r.get("kind") in ("unicode-source", "raw-block"):
+            class _Ck:
+                cov, notes, failing = {"evaluations": 0}, {}, []
+                def fail_input(self, sig, what, rep): self.failing.append(sig); print("STILL FAILS:", sig, "-", what[:400])
+                def corr_problem(self, *a): print("problem:", a[0])
+            c = _Ck()
+            unicode_source_oracle(c, tmp)
+            print("recorded:", r.get("kind"), r.get("format"), "| now:", c.failing or "no violation on this tree")
+            return 1 if c.failing else 0
         spec = r["spec"]
         out, meta = impl_expand(spec, tmp)
         doc = doc_expand(spec)
